@@ -97,6 +97,13 @@ CHECKS["C18"] = dict(ref="5/C18", text="Markov.tla writes the textbook rate matr
     "balance, convergence, P(t)=Expm(Qt), analytical = eigen-based.", note="Tolerances 1e-9 (4 states), 1e-6 (20 states), 1e-5 (convergence at t=100); finite parameter grid. "
     "Trusted: TLC, java.lang.Math, the F64 glue class; protein exchangeabilities are read from the code's exported tables.",
     tech="TLA+ specification of the rate matrices and of the matrix exponential (Markov.tla, IEEE doubles via a TLC module override); TLC-generated parameter grid replayed into Go; observed P(t) validated by TLC (Trace_Markov)")
+
+CHECKS["C20"] = dict(ref="5/C20", text="Weights.tla states the relations: one strictly positive finite weight per site summing to the length; Dirichlet samples summing to the requested "
+    "total and errors exactly for invalid parameter vectors; rate categories non-negative, non-decreasing, mean 1; incomplete gamma ratio in [0,1], monotone in x and equal "
+    "(1e-7) to its series definition, which TLC evaluates term by term in IEEE doubles. The driver draws weight vectors for lengths that go up and down (3..200) and many "
+    "seeds, Dirichlet parameter vectors over shapes {0.01..100} incl. invalid ones, categories 2..32 x shapes, and x grids straddling the series/continued-fraction switch "
+    "up to 1e5*alpha; TLC validates every event.", note="Sampled seeds and grids; distributional correctness of the samplers is not claimed. Trusted: TLC, java.lang.Math, F64 glue.",
+    tech="TLA+ relations and series definition (Weights.tla, IEEE doubles via a TLC module override); recorded samples and function values validated by TLC (Trace_Weights)")
 NA = []
 def main():
     props = [json.loads(l)["id"] for l in open(os.path.join(V, "properties.jsonl"))]
